@@ -1,122 +1,115 @@
-import TakVerif.Impl.Move
+import TakVerif.Proofs.NoPanic
+import TakVerif.Proofs.Groups
 
-/-! `Pos.apply` (`MovePreallocated`) never panics: its one `panic` site is unreachable. -/
+/-! `Pos.apply` (`MovePreallocated`) returns a position or an error value, for every position and move:
+its `panic` site is unreachable (`Tak.apply_err`) and `analyze` never runs out of fuel
+(`Roads.analyze_ne_none`). -/
 namespace Tak
-
-def Err.isPanic : Err → Bool
-  | .panic _ => true
-  | _ => false
 
 /-- the call returned a value or an error value (it did not panic) -/
 def NoPanic {α} (r : R α) : Prop := ∀ s, r ≠ .error (.panic s)
 
-theorem finish_noPanic (p : Pos) : NoPanic (finish p) := by
-  intro s; unfold finish; split <;> simp
+/-- an error value -/
+def Err.ill (e : Err) : Prop := ∃ w, e = .illegal w
 
-theorem slideStep_noPanic (basis p top stack dx dy st c) : NoPanic (slideStep basis p top stack dx dy st c) := by
-  intro s
-  unfold slideStep
-  simp only []
-  split
-  · simp
-  split
-  · simp
-  split
-  · rename_i heq
-    intro h
-    cases h
-    split at heq
-    · cases heq
-    split at heq
-    · split at heq <;> cases heq
-    · cases heq
-  · simp
+theorem finish_ne_error (p : Pos) (e : Err) : finish p ≠ .error e := by
+  unfold finish
+  cases h : p.analyze with
+  | none => exact absurd h (Roads.analyze_ne_none p)
+  | some q => intro h'; cases h'
 
-theorem slideLoop_noPanic (basis p top stack dx dy) : ∀ drops st, NoPanic (slideLoop basis p top stack dx dy drops st) := by
-  intro drops
-  induction drops with
-  | nil => intro st s; simp [slideLoop]
+theorem enterSquare_ill {next : Pos} {top : Piece} {ct i : Nat} {e : Err}
+    (h : enterSquare next top ct i = .error e) : e.ill := by
+  unfold enterSquare at h
+  split at h
+  · cases h; exact ⟨_, rfl⟩
+  · split at h
+    · split at h
+      · cases h; exact ⟨_, rfl⟩
+      · cases h
+    · cases h
+
+theorem slideStep_ill {basis : Array W} {p : Pos} {top : Piece} {stack : W} {dx dy : Int} {st : SlideSt} {c : Nat} {e : Err}
+    (h : slideStep basis p top stack dx dy st c = .error e) : e.ill := by
+  unfold slideStep at h
+  dsimp only at h
+  split at h
+  · cases h; exact ⟨_, rfl⟩
+  · split at h
+    · cases h; exact ⟨_, rfl⟩
+    · split at h
+      · rename_i e' he; cases h; exact enterSquare_ill he
+      · cases h
+
+theorem slideLoop_ill {basis : Array W} {p : Pos} {top : Piece} {stack : W} {dx dy : Int} (drops : List Nat)
+    {st : SlideSt} {e : Err} (h : slideLoop basis p top stack dx dy drops st = .error e) : e.ill := by
+  induction drops generalizing st with
+  | nil => simp only [slideLoop] at h; cases h
   | cons c cs ih =>
-    intro st s
-    unfold slideLoop
-    cases h : slideStep basis p top stack dx dy st c with
-    | error e =>
-      have := slideStep_noPanic basis p top stack dx dy st c s
-      rw [h] at this
-      simpa [bind, Except.bind] using this
-    | ok st' => simpa [bind, Except.bind] using ih st' s
+    simp only [slideLoop] at h
+    split at h
+    · rename_i e' he; cases h; exact slideStep_ill he
+    · exact ih h
 
-theorem toMove_cases (p : Pos) : p.toMove = .white ∨ p.toMove = .black := by
-  unfold Pos.toMove; split <;> simp
-
-theorem topAt_ne_none (p : Pos) (i : Nat) (h : p.white.getLsbD i = true ∨ p.black.getLsbD i = true) :
-    p.topAt i ≠ none := by
-  unfold Pos.topAt
-  rcases h with h | h
-  · simp [h]
-  · by_cases hw : p.white.getLsbD i = true <;> simp [h, hw]
-
-theorem apply_noPanic (basis : Array W) (p : Pos) (m : Move) : NoPanic (Pos.apply basis p m) := by
-  intro s
-  unfold Pos.apply
-  extract_lets next mover disp sz i drops ct h next2
-  split
-  · exact finish_noPanic _ s
-  clear_value disp
-  cases disp with
-  | none => simp
-  | some t =>
-    obtain ⟨place, dx, dy⟩ := t
-    dsimp (config := { zeta := false }) only
-    extract_lets place?
-    have hp : ∀ e, place? = .error e → e ≠ .panic s := by
-      intro e he
-      simp only [place?] at he
+/-- every error of `MovePreallocated` is an error value: no panic, no exhausted fuel -/
+theorem apply_ill {basis : Array W} {p : Pos} {m : Move} {e : Err} (h : Pos.apply basis p m = .error e) : e.ill := by
+  have hb := apply_err h
+  cases e with
+  | illegal w => exact ⟨w, rfl⟩
+  | panic s => exact absurd hb (by simp [Err.benign])
+  | hang s =>
+    -- a `hang` can only come out of `finish`, which never fails
+    exfalso
+    unfold Pos.apply at h
+    dsimp only at h
+    split at h
+    · exact finish_ne_error _ _ h
+    split at h
+    · cases h
+    split at h
+    · rename_i e' he; cases h; have := openingRule_err he
+      unfold openingRule at he
       split at he
       · split at he
         · split at he <;> cases he
-          simp
-        · cases he; simp
+        · cases he
       · cases he
-    clear_value place?
-    cases place? with
-    | error e => intro h; cases h; exact hp _ rfl rfl
-    | ok place2 =>
-      dsimp (config := { zeta := false }) only
-      split
-      · simp
-      cases place2 with
-      | some pc =>
-        dsimp (config := { zeta := false }) only
-        split
-        · simp
-        extract_lets n1 useCaps blackRes stones
-        split
-        · simp
-        · exact finish_noPanic _ s
-      | none =>
-        dsimp (config := { zeta := false }) only
-        split
-        · simp
-        split
-        · simp
-        split
-        · simp
-        split
-        · simp
-        rename_i hw hb
-        split
-        · rename_i htop
-          exfalso
-          rcases toMove_cases p with ht | ht
-          · simp [ht] at hw
-            exact topAt_ne_none p _ (Or.inl hw) htop
-          · simp [ht] at hb
-            exact topAt_ne_none p _ (Or.inr hb) htop
-        · extract_lets stack n1 n2 n3 n4
-          split
-          · rename_i e heq
-            intro h
-            cases h
-            exact slideLoop_noPanic _ _ _ _ _ _ _ _ s heq
-          · exact finish_noPanic _ s
+    split at h
+    · cases h
+    split at h
+    · rw [placeOn_eq] at h
+      split at h
+      · cases h
+      split at h
+      · cases h
+      · exact finish_ne_error _ _ h
+    · unfold slideFrom at h
+      dsimp only at h
+      split at h
+      · cases h
+      split at h
+      · cases h
+      split at h
+      · cases h
+      split at h
+      · cases h
+      split at h
+      · cases h
+      · split at h
+        · rename_i e' he; cases h
+          obtain ⟨w, hw⟩ := slideLoop_ill _ he
+          cases hw
+        · exact finish_ne_error _ _ h
+
+theorem apply_noPanic (basis : Array W) (p : Pos) (m : Move) : NoPanic (Pos.apply basis p m) := by
+  intro s h
+  obtain ⟨w, hw⟩ := apply_ill h
+  cases hw
+
+/-- `Position.Move` never exhausts the model's fuel -/
+theorem apply_noHang (basis : Array W) (p : Pos) (m : Move) (s : String) : Pos.apply basis p m ≠ .error (.hang s) := by
+  intro h
+  obtain ⟨w, hw⟩ := apply_ill h
+  cases hw
+
+end Tak
